@@ -152,7 +152,7 @@ func Run(c *gen.Ctx) error {
 	stats["streaming_transport_requests"] = streamingTransports(meta, c.Thorough())
 	stats["websocket_endings"] = websocketEndings(meta)
 	stats["websocket_overlapping_operations"] = websocketOverlap(meta)
-	if ns, err := strayElements(meta); err != nil {
+	if ns, err := strayElements(c.OutDir, meta); err != nil {
 		return err
 	} else {
 		stats["lists_with_panicking_element_goroutines"] = ns
